@@ -670,8 +670,11 @@ class Watcher(object):
                 logger.debug('running %s process [pid %d]', self.name,
                              process.pid)
                 if not self.call_hook('after_spawn', pid=process.pid):
-                    self.kill_process(process)
-                    del self.processes[process.pid]
+                    # keep the process registered until it is really gone
+                    future = self.kill_process(process)
+                    future.add_done_callback(
+                        lambda _f, pid=process.pid:
+                        self.processes.pop(pid, None))
                     return False
 
             # catch ValueError as well, as a misconfigured rlimit setting could
